@@ -1,5 +1,10 @@
+import e2e
+
 SPEC = {
     "corr": [{"kind": "infomodel", "quick": 1, "thorough": 1}],
+    # both load paths of the real binary: started with / without the shipped file in its configuration directory while
+    # NetFlow v9 and IPFIX exporters are already sending
+    "extra": [e2e.startup_cycles],
     "rule": "exhaustive: every key of the built-in table, every IANA id 0..500 and 100 random keys; for each the real "
             "ipfix.InfoModel entry before and after the real LoadExtElements on the shipped scripts/ipfix.elements; "
             "non-trivial = the key exists; distinct = distinct key",
